@@ -260,12 +260,12 @@ class Check:
         return 0
 
 
-def hyp_settings(max_examples, **kw):
+def hyp_settings(max_examples, shrink=True, **kw):
     from hypothesis import settings, HealthCheck, Phase
     return settings(max_examples=max_examples, database=None, deadline=None, derandomize=False,
                     report_multiple_bugs=False, print_blob=False,
                     suppress_health_check=[HealthCheck.too_slow, HealthCheck.data_too_large, HealthCheck.filter_too_much],
-                    phases=[Phase.generate, Phase.shrink], **kw)
+                    phases=[Phase.generate, Phase.shrink] if shrink else [Phase.generate], **kw)
 
 
 class Failure(AssertionError):
@@ -278,7 +278,7 @@ class Failure(AssertionError):
         self.case = case
 
 
-def run_hypothesis(check, stats, strategy, test, max_examples, seed):
+def run_hypothesis(check, stats, strategy, test, max_examples, seed, shrink=True):
     """Run test(x) over strategy. test returns None (holds / known) or (descriptor, what, case) for a NEW violation
     (i.e. after consulting check.is_known). The shrunk violation is recorded in stats."""
     from hypothesis import given, seed as hseed
@@ -289,7 +289,7 @@ def run_hypothesis(check, stats, strategy, test, max_examples, seed):
     holder = {}
     counter = {'n': 0}
 
-    @hyp_settings(max_examples)
+    @hyp_settings(max_examples, shrink=shrink)
     @hseed(seed)
     @given(strategy)
     def t(x):
